@@ -119,6 +119,10 @@ PROPS = {
             "block is C08/C10's job, not visible here",
             "PARTIAL: OS scheduling fairness; bounded-buffer deadlock of reconvergent paths whose skew exceeds the stream capacity "
             "is excluded by the generator (diamond branches are rate-1 with skew <= 20 samples)",
+            "the runner retires a block when its eof() answers true after a wait verdict: the theorems take the blocks' eof() "
+            "to be sound (nothing left to deliver); that contract is checked per block by the !eofsound lines of the drip-feed "
+            "harness (C08/C09/C12/C20 runs) and proved for the macro-derived eof() of the sync family and for FftFilterFloat "
+            "(c09_fft_float_eof_sound) - the one block that violated it lost the tail of a stream for some thread timings",
         ],
         "assumptions": ["blocks are deterministic; sources are finite"],
     },
